@@ -22,7 +22,7 @@ CHECKS = {
    technique='exhaustive enumeration of address/GUID/sequence literal shapes against own grammar rules and ipaddress',
    text='IPv4: per octet position every spelling 0..999 and zero-padded forms x boundary octets; IPv6: every "::" position and length, '
         'every hextet spelling of length 1-4 over {0,1,a,F} at every position, near-misses; GUID: every hex digit at every position x 4 '
-        'layouts x case; e-mail, URL (every listed TLD), hashtag, mention, phone templates with all digit fillings. Completeness and '
+        'layouts x case; several addresses per query; e-mail, URL (every listed TLD), hashtag, mention, phone templates with all digit fillings. Completeness and '
         'soundness are checked on every leaf; workers keep one model for the whole run, so stale-state defects surface as '
         'history-dependent failures.',
    note=BASE_NOTE + 'ipaddress (standard library) is the address oracle.'),
@@ -30,19 +30,22 @@ CHECKS = {
    technique='exhaustive enumeration of the TIMEX grammar over field boundary sets, parse/format/parse fixpoint',
    text='Every TIMEX form of the statement with all months, days 01-31, weeks 01-53, all 86,400 times of day, years from boundary sets '
         '(thorough: every 7th year 0001-9999), durations, date+time combinations and from_date/from_date_time/from_time, checked for '
-        'field-preserving round trip, idempotent formatting and canonical identity against an independent formatter.',
+        'field-preserving round trip, idempotent formatting and canonical identity against an independent formatter; plus every '
+        '<=1-preemption schedule of two threads round-tripping two TIMEXes.',
    note=BASE_NOTE),
  'C20': dict(engine='E1-choice-tree', design_ref='7/C20',
    technique='exhaustive enumeration of the resource regex alternatives x case x context; neutral and mixed-polarity strings',
    text='Every alternative of EnglishChoice.TrueRegex/FalseRegex (expanded mechanically from the resource text, emoji as code points, '
         'all skin tones) x 3 letter cases x 26 contexts including fillers that contain listed words as substrings; all neutral token '
-        'sequences up to length 3; every ordered true/false pair x 3 separators; polarity, exact span, score range on every leaf.',
+        'sequences up to length 3; every ordered true/false pair x 3 separators; polarity, exact span, score range on every leaf; plus '
+        'every <=1-preemption schedule of two callers sharing the cached model.',
    note=BASE_NOTE),
  'C06': dict(engine='E1-choice-tree', design_ref='7/C06',
    technique='exhaustive enumeration of dates x layouts x cultures, each leaf parsed under several reference datetimes',
    text='Every day of seed-rotated full years and the calendar boundaries of every year 1900-2099, rendered in all 12 English layouts and '
         'in ISO / numeric / month-name layouts of 7 other cultures, alone and in carriers; each leaf is parsed under 2 (thorough 4) '
-        'reference datetimes spanning 1950-2090 and must give the identical single date entity with TIMEX = value = the date.',
+        'reference datetimes spanning 1950-2090 and must give the identical single date entity with TIMEX = value = the date; plus a first-use '
+        'write monitor (structural fingerprint of a freshly built model before and after its first date) per culture.',
    note=BASE_NOTE + 'Month names and numeric order per culture are a table of the driver.'),
  'C07': dict(engine='E1-choice-tree', design_ref='7/C07',
    technique='exhaustive enumeration of clock-time spellings and date+time compositions, with one-step call histories on the warm model',
@@ -63,7 +66,7 @@ CHECKS = {
    text='All 366 month-days x 4 layouts and 7 weekday names; the reference date ranges over the stated day and its neighbours in each '
         'of 8 years at 3 times of day, year and leap-day boundaries, and every day of a leap and a non-leap year for the special days '
         '(thorough: every day of 2015-2022 x 2 times for every stated day). Exactly two candidates [latest before R, earliest on or '
-        'after R] with an open-year/open-week TIMEX are required.',
+        'after R] with an open-year/open-week TIMEX are required; plus every <=1-preemption schedule of two callers with different references.',
    note=BASE_NOTE + 'English only.'),
  'C10': dict(engine='E1-choice-tree', design_ref='7/C10',
    technique='exhaustive enumeration of N x units and of ordered endpoint pairs; arithmetic invariant on every (start,end,duration) triple',
@@ -94,8 +97,8 @@ CHECKS = {
  'C11': dict(engine='E1-choice-tree', design_ref='7/C11',
    technique='invariant evaluated on every entity of an exhaustive sweep: spec inputs x references, expression pool x reference days, non-existent dates',
    text='Well-formedness and TIMEX agreement of every resolution value on every Python-supported Specs date-time input of 9 cultures under 5 '
-        'references, ~150 generated expressions under every 3rd day of a leap year plus year boundaries 1950-2090, and non-existent '
-        'calendar dates in 10 layouts.',
+        'references, ~150 generated expressions under every 3rd day of a leap year plus year boundaries 1950-2090, non-existent '
+        'calendar dates in 10 layouts, and every <=1-preemption schedule of two callers with expressions of different kinds.',
    note=BASE_NOTE),
  'C12': dict(engine='E1-choice-tree', design_ref='7/C12',
    technique='same exhaustive exploration as C01; interval-disjointness invariant on the entities of each model call',
